@@ -3,9 +3,10 @@ CONSTANTS
   Weak_NoProofIndexBinding = FALSE
   Weak_AuntLenUnchecked = FALSE
   Weak_NoLeafCheck = FALSE
+  Weak_TruncatedPosition = FALSE
 INIT PSInit
 NEXT PSNext
-INVARIANTS PartBinds Reassembles
-PROPERTY Idempotent
+INVARIANTS PartBinds Reassembles CompleteMatchesHeader
+PROPERTY Idempotent AdmitOnlyProven
 VIEW PSView
 CHECK_DEADLOCK FALSE
